@@ -1607,6 +1607,10 @@ def ext_call(it, dotted, args, kw):
             cols = []
             for x in parts:
                 cols += [c for c in x.cols if c not in cols]
+            if kw.get("join", "outer") == "inner":
+                cols = [c for c in cols if all(c in x.cols for x in parts)]
+            elif kw.get("join", "outer") != "outer":
+                raise Undecided(f"pd.concat(join={kw.get('join')!r})")
             n = sum(x.n for x in parts)
             out = DF({c: Vec([v for x in parts for v in (x.cols[c].v if c in x.cols else [None] * x.n)], aligned=True) for c in cols}, n)
             # without ignore_index the parts' labels repeat: label-aligned stores into the result are hazards
